@@ -324,7 +324,8 @@ def _r1_python_by_evaluation(ctx):
 
         def kernel(ev, call):
             rec["args"] = [ev.ex(a_) for a_ in call.args] + [ev.ex(k.value) for k in call.keywords]
-            chars = [Rat(Poly.var("code[%d,%d]" % (f, r_))) for f in range(F_) for r_ in range(R_)]
+            n_res = rec["args"][1].shape[0] if len(rec["args"]) > 1 and isinstance(rec["args"][1], Ten) else R_       # one character per frame and residue handed over
+            chars = [Rat(Poly.var("code[%d,%d]" % (f, r_))) for f in range(F_) for r_ in range(n_res)]
 
             def mk(cs):
                 return Obj(tag="str", chars=cs, translate=lambda table: mk([ev.fn("simplified", c) for c in cs]) if getattr(table, "tag", None) == "table" else None)
@@ -356,6 +357,8 @@ def _r1_python_by_evaluation(ctx):
                 c = Rat(Poly.var("code[%d,%d]" % (f, r_)))
                 wanted.append(Rat(Poly.var(repr("NA"))) if not want["protein"][r_] else (ts.fn("simplified", c) if simplified else c))
         wt = Ten((F_, R_), wanted)
+        if isinstance(out, Ten):
+            out = Ten(out.shape, [Rat(Poly.var(repr(x_))) if isinstance(x_, str) else x_ for x_ in out.data])      # a text element ('NA' from np.full) is a value like the others
         ok = isinstance(out, Ten) and out.shape == (F_, R_) and ts.first_difference(out, wt) is None
         ctx.decide(ok, "C15-R1", cd, DP, q, desc + ": out[f, r] = %s, 'NA' where the residue lacks one of N, CA, C, O" % ("the fixed 3-letter image of the kernel's character" if simplified else "the kernel's character for frame f, residue r"), "",
                    "the result %s" % ("has shape %s instead of (n_frames, n_residues)" % (getattr(out, "shape", None),) if not (isinstance(out, Ten) and out.shape == (F_, R_)) else ts.first_difference(out, wt)))
